@@ -76,7 +76,7 @@ Definition sym_branch (tok : N) (x : xstate) : R bool :=
     rdo '(ok, ws) <- lift t_skip_double_colon;
     if ok then
       if (tok =? tokenSymbol)%N && is_keyword v then rfail
-      else if (tok =? tokenSymbolOperator)%N then rfail
+      else if (tok =? tokenSymbolOperator)%N || (tok =? tokenDot)%N then rfail
       else
         rdo x <- rget;
         rdo k <- (if (tok =? tokenSymbolQuoted)%N then rret (tok_text v)
